@@ -21,7 +21,7 @@ func init() {
 		Patterns: []string{"./d2graph", "./d2compiler", "./d2ast", "./lib/color", "./d2target"},
 		Explanation: "Decides, from the source of the validators (nothing is executed): (1) keyword ⇄ validator ⇄ storage agreement — StyleKeywords = case labels of Style.Apply = case labels of compileStyleFieldInit, each Apply case stores into the same Style field that compileStyleFieldInit allocates for that keyword and no two keywords share a field; SimpleReservedKeywords ⊆ case labels of compileReserved; " +
 			"(2) for every keyword, the accepted domain extracted by abstract interpretation of the case's reject conditions (parse function; interval with open/closed ends and an explicit NaN element; or membership table with its case normalisation) equals the documented domain table in the checker; " +
-			"(3) the value stored is the validated input itself (or its lower-case form for keyword-valued attributes); (4) every regular expression on the colour-validation path is anchored at both ends of the whole pattern (an anchor inside one alternative accepts garbage prefixes/suffixes).",
+			"(3) the value stored is the validated input itself (or its lower-case form for keyword-valued attributes); (4) every regular expression on the colour-validation path is anchored at both ends of the whole pattern (an anchor inside one alternative accepts garbage prefixes/suffixes). Also: an attribute validated with strconv.ParseBool is stored as strconv.FormatBool of the parsed value (consumers compare the stored text with \"true\").",
 		NotCovered: "the colour grammar accepted by csscolorparser for gradient stops; error positions; near-key resolution; config keys of vars.d2-config (structure only)",
 		Trust:      []string{"strconv.Atoi/ParseFloat/ParseBool accept exactly Go's decimal integer / float / bool syntax"},
 		Technique:  "static analysis: constant-set extraction and comparison, abstract interpretation of reject conditions over intervals with NaN, regexp/syntax shape check of pattern constants",
